@@ -61,6 +61,10 @@ type result struct {
 	Err       string              `json:"err,omitempty"`
 	StructDif []string            `json:"structdif,omitempty"`
 	Notes     map[string][]string `json:"notes,omitempty"` // informational: examples per non-violation class
+	// depth-guard ladders (ladder.go)
+	Ladders     int64 `json:"ladders,omitempty"`      // rungs checked
+	LadderPaths int   `json:"ladder_paths,omitempty"` // (type, interface location) pairs with a ladder
+	HandChecked int64 `json:"hand_checked,omitempty"` // rungs whose hand-made encoding was compared with the encoders' output
 }
 
 type checker struct {
@@ -70,11 +74,21 @@ type checker struct {
 	res   *result
 	vmap  map[string]*viol // class -> smallest
 	trace *os.File
+	// ladder mode: violations carry this witness (a description) instead of the input bytes
+	witness    string
+	witnessLen int
 }
 
 func (c *checker) out(class string) { c.res.Outcomes[class]++ }
 
 func (c *checker) violation(class, input string, ilen int, detail string) {
+	if c.witness != "" {
+		// one cause per defect: the wrappers the reflect decoder adds per list level on the way out are dropped
+		detail = strings.ReplaceAll(detail, "error reading slice contents: ", "")
+		detail = strings.ReplaceAll(detail, "error reading array contents: ", "")
+		c.record(&viol{Class: class, Type: c.reg.name, Input: c.witness, Len: c.witnessLen, Desc: true, Detail: detail})
+		return
+	}
 	c.record(&viol{Class: class, Type: c.reg.name, Input: input, Len: ilen, Detail: detail})
 }
 
